@@ -212,8 +212,15 @@ def rule_merkle(ctx):
     m = prog.one('utils::merkle_root')
     ctx.touch(m)
     defs = {}
+    # the current-level variable: the local (of the parameter's type) that is initialised from the parameter and
+    # reassigned inside the loop
+    def is_level_var(l, ds):
+        if len(ds) < 2 or m.local_ty(l) != m.local_ty(1):
+            return False
+        vs = [canon(m.rvalue_expr(d[3])) if d[0] == 'assign' else canon(m.call_expr(d[2])) for d in ds]
+        return 'a1' in vs and any(m.loop_depth(d[1]) >= 1 for d in ds)
     for l, ds in m.defs().items():
-        if m.names.get(l) == 'hashes':
+        if is_level_var(l, ds):
             for d in ds:
                 v = m.rvalue_expr(d[3]) if d[0] == 'assign' else m.call_expr(d[2])
                 defs[_cur(canon(v))] = (m.loop_depth(d[1]), util.guards_at(m, d[1]))
